@@ -126,7 +126,7 @@ def conclude(ctx, prop, results, wall):
                 found_input = None
                 f["search_error"] = str(e)
         payload = {"property": pid, "obligation": f["obligation"], "unit": f["unit"], "engine": f["engine"],
-                   "message": f.get("message"), "item": f.get("item"), "verifier_output": f.get("detail"),
+                   "message": f.get("message"), "item": f.get("item"), "contract_obligations_of_item": f.get("serves"), "verifier_output": f.get("detail"),
                    "counterexample": found_input, "replayed_on_real_code": bool(f.get("replayed")) or (found_input is not None and f.get("search") is not None),
                    "replay": f.get("replay")}
         rp = write_replay(ctx, f["obligation"], payload)
@@ -176,7 +176,8 @@ def conclude(ctx, prop, results, wall):
     for f, rp, inp in violations:
         tail = "" if (inp is not None or f.get("replayed") or f.get("counterexample") is not None) else " no-failing-input-found"
         print("VIOLATION property=%s replay=%s%s" % (pid, rp, tail))
-        print("  obligation %s failed: %s" % (f["obligation"], f.get("message")))
+        print("  obligation %s failed: %s%s" % (f["obligation"], f.get("message"),
+              (" (inside the function whose contract carries: %s)" % ", ".join(f["serves"])) if f.get("serves") else ""))
     if violations:
         return 1
     if undecided:
